@@ -71,13 +71,28 @@ T_C02_Bound == Observed => C02_Bound
 T_C03_NoLostWake == (Observed /\ obs.ev = "step") => C03_Pred(obs.q)
 \* C04: within any run of dispatches that were each followed by an undisturbed rotation, W consecutive
 \* dispatches hit W distinct workers
-DL == St.dlog                              \* <<conn, worker, clean>>
+DL == St.dlog                              \* <<conn, worker, clean, load of the target after the send, re-routed after a failed send, generation of the target>>
 T_C04_RoundRobin == (Observed /\ ~everFaulted) =>
   \A k \in 1..(Len(DL) - W + 1) :
      (\A j \in k..(k + W - 2) : DL[j][3]) => (\A a, b \in k..(k + W - 1) : DL[a][2] = DL[b][2] => a = b)
-T_C04_SaturatedGetsNothing == Observed => C02_Bound
+\* a worker at its limit receives nothing until it has released a connection: right after every send the target holds at
+\* most Limit connections (queued + in progress, measured at the send yield point).  Only claimed while no worker has
+\* faulted (as C02): a re-routed connection may be forced onto a saturated worker and a notification queued before that
+\* forced send re-arms the worker although it is full - TLC shows the overload is then unbounded in the design as well
+\* the same with "while no worker is saturated" read from measurements only (not from the accept thread's own bits):
+\* DL[j][7] = dispatch j belongs to a calm phase - it started at a settled state with every worker in the rotation and
+\* below its limit (lemma C04_BitsTrueWhenCalm: then every bit is set) and since then, including right after send j,
+\* no worker has reached its limit and no worker died or rejoined
+T_C04_RoundRobinMeasured == Observed =>
+  \A k \in 1..(Len(DL) - W + 1) :
+     (\A j \in k..(k + W - 2) : DL[j][7]) => (\A a, b \in k..(k + W - 1) : DL[a][2] = DL[b][2] => a = b)
+T_C04_SaturatedGetsNothing == Observed =>
+  /\ C02_Bound
+  /\ ~everFaulted => \A k \in 1..Len(DL) : DL[k][4] <= Limit
 \* C05
-T_C05_PausedNoDispatch == (Observed /\ obs.ev = "step") => (obs.pe => obs.ndisp = 0)
+\* (pe: the recorded iteration started paused and no Resume was queued or anchored; pausedDispatch: while the driver
+\* iterated the loop to quiescence, some iteration that started paused with no Resume queued dispatched a connection)
+T_C05_PausedNoDispatch == (Observed /\ obs.ev = "step") => ((obs.pe => obs.ndisp = 0) /\ ~obs.pausedDispatch)
 T_C05_UdsReachable == Observed => (running => (~connRefused /\ \A k \in Listeners : pathOk[k]))
 T_C05_ListenerLive == (Observed /\ obs.ev = "step") => C03_Pred(obs.q)
 \* after the back-off every listener accepts again: once the loop has settled no listener still carries a deadline
